@@ -23,7 +23,8 @@ META = {
                    'inner magnitude atom is matched to its reference position, and the outer stage (level-1 transform of the inner magnitudes, pooling, second magnitudes) is compared '
                    'with the reference operator applied to those same atoms; band-major channel layout and the documented output shape are checked concretely; non-negativity: '
                    'r >= 0, r^2 = s + b^2, s >= -1e-10 => r - b >= -1e-6 (small QF_NRA query per configuration; exact non-negativity follows from q being a sum of squares + b^2).',
-    'bounds': {'quick': {'first order': {'biort': BIORTS, 'magbias': [0, 0.01, 1], 'colour': 'on (C=3) / off (C=1,2)', 'sizes': '(4,4),(6,6),(4,6),(5,5),(3,4),(2,2),(7,6)'},
+    'bounds': {'added_families': ['first order with 17 and 33 channels (2x2, 2x4)', 'second order 7x8 and C=2 8x8'],
+               'quick': {'first order': {'biort': BIORTS, 'magbias': [0, 0.01, 1], 'colour': 'on (C=3) / off (C=1,2)', 'sizes': '(4,4),(6,6),(4,6),(5,5),(3,4),(2,2),(7,6)'},
                          'second order': {'filters': '(near_sym_a,qshift_a|06|c), (near_sym_b_bp,qshift_b_bp)', 'sizes': '8x8 (+ 6x7 -> extended)', 'colour': 'off'}},
                'thorough': {'first order': 'sizes up to 10x10, all 5 families x 3 biases', 'second order': '3 filter pairs, 8x8, 8x16, 5x9'}},
     'outside': 'second-order colour combination (engine-validated only); sizes beyond the lists; symbolic magbias; float rounding',
